@@ -8,7 +8,7 @@ cp -rL /repo/indextree /repo/indextree-macros /repo/Cargo.toml /repo/Cargo.lock 
 rm -rf "$d"/indextree/target "$d"/target
 (cd "$d" && patch -p1 -s < "$patch") || { echo "patch failed"; exit 3; }
 for id in "$@"; do
-  out=$(VERIF_REPO="$d" /verif/check "$id" 2>&1)
+  out=$(VERIF_REPO="$d" "$(dirname "$(readlink -f "$0")")/../check" "$id" 2>&1)
   rc=$?
   echo "$id exit=$rc $(echo "$out" | grep -E '^\s+key:' | head -4 | cut -c1-220 | tr '\n' ' ')"
   [ $rc -gt 1 ] && echo "$out" | tail -n 6 | cut -c1-300
